@@ -35,7 +35,7 @@ def fnNames : List (String × Fn) := [
 
 def clsNames : List (String × Cls) := [("int", .int), ("uint", .uint), ("uintNoPtr", .uintNoPtr), ("float", .float),
   ("complex", .complex), ("string", .string), ("bool", .bool), ("other", .other), ("any", .any),
-  ("untypedConst", .untypedConst), ("linked", .linked), ("ifaceOperand", .ifaceOperand)]
+  ("untypedConst", .untypedConst), ("linked", .linked), ("ifaceOperand", .ifaceOperand), ("chanMixed", .chanMixed)]
 def variantNames : List (String × Variant) := [("iface", .iface), ("cl", .cl), ("cr", .cr), ("vv", .vv), ("fold", .fold), ("plain", .plain)]
 def subNames : List (String × Sub) := [("none", .none), ("br", .br), ("val", .val)]
 
